@@ -45,6 +45,8 @@ R_BIND = _rule("R-BIND", "r_bind", text="point comparisons compare the full poin
 R_LEN = _rule("R-LEN", "r_len", "len_obligations", text="every accepting return of the listed parsers / verifiers is dominated by the frozen number of equality constraints on the caller's length (no trailing bytes)")
 R_SIZE = _rule("R-SIZE", "r_len", "size_obligations", text="size-negotiating serializers reject with a strict `*len < E` using the same linear expression E they store into *len")
 R_DOM = _rule("R-DOM", "r_dom", text="every call chain from an exported function to the generator multiplication passes the built-context ARG_CHECK; partial signatures are saved only after secnonce_load succeeded")
+R_SCTX = _rule("R-SCTX", "r_dom", "static_ctx_obligations", all_for=("C20",), text="an exported function outside the call cone of the generator multiplication has no built-context ARG_CHECK in its call tree: "
+               "verification, parsing and serialization keep working on secp256k1_context_static")
 R_PAIR = _rule("R-PAIR", "r_pair", text="every heap block / scratch checkpoint acquired in a function is released or handed over on every exit path (typestate, may-leak)")
 
 R_SIB = _rule("R-SIB", "r_sib", "sib_obligations", text="constants a writer and a reader must share (exponent / mantissa / minimum-length bounds, key and input count bounds vs array and field capacities) agree across their sites")
@@ -58,8 +60,11 @@ R_ABORT = _rule("R-ABORT", "r_abort", all_for=("C07",), text="no ARG_CHECK condi
                 "(NULL tests and opaque-object contracts excluded): crafted bytes cannot reach the illegal-argument callback")
 R_VERDICT = _rule("R-VERDICT", "r_verdict", text="every accepting return of the listed verifiers takes its value from the final equation predicate, or is a literal dominated by a branch on it "
                   "(no accepting shortcut past the equation)")
+R_MUST = _rule("R-MUST", "r_must", text="must-pass-through on accepting paths: the families of primitives (group multiplication, hash absorb / finalise, save / load, equality, "
+               "infinity / zero tests, scalar / group arithmetic, decode / encode, parity, sort) executed on every path to every accepting return of each exported function on the "
+               "reviewed tree (tables/must_pass.json) are still executed on every such path (accept-path partitioned dataflow over clang's CFG with must summaries of helpers)")
 
-DECODE = [R_CHK, R_OBL, R_RED, R_ORD, R_TAG, R_BOOL, R_VERDICT]
+DECODE = [R_CHK, R_OBL, R_RED, R_ORD, R_TAG, R_BOOL, R_VERDICT, R_SCTX, R_MUST]
 BOUNDS = [R_CAP, R_RING, R_WRAP, R_INB, R_LEN, R_SIB, R_BITS]
 
 ALL_CFG = ["K0", "K1", "K2", "K3"]
@@ -122,7 +127,7 @@ _prop("C11", DECODE + BOUNDS + [R_PAIR, R_SIZE],
 _prop("C12", DECODE + [R_FLOW, R_ZOF, R_BIND, R_DOM],
       "MuSig2, structural clauses.",
       "equality with the BIP-327 functions, session validity, adapt/extract inverse (algebra)")
-_prop("C13", [R_ZOF, R_CHK, R_OBL, R_BIND, R_DOM],
+_prop("C13", [R_ZOF, R_CHK, R_OBL, R_BIND, R_DOM, R_MUST],
       "MuSig secnonce single use — typestate over call histories, decided on the functions that implement it: *secnonce is all-zero at EVERY return of "
       "partial_sign after its own NULL check (incl. every later ARG_CHECK return); secnonce is zero on every failing return of nonce_gen / nonce_gen_counter "
       "(through nonce_gen_internal and secnonce_invalidate); session_secrand32 is zero whenever nonce_gen succeeds; the stored public key is compared as a "
@@ -195,7 +200,7 @@ R_GLOB = _eff_rule("R-GLOB", "glob_obligations")
 R_EFF = _eff_rule("R-EFF", "eff_obligations")
 R_ALLOC = _eff_rule("R-ALLOC", "alloc_obligations")
 
-_prop("C20", [R_GLOB, R_EFF, R_ALLOC, R_DOM, R_PAIR], "",
+_prop("C20", [R_GLOB, R_EFF, R_ALLOC, R_DOM, R_SCTX, R_PAIR], "",
       "equality of results across randomisation histories (the blinding invariant nG = comb(n + offset) + ge_offset is algebra) and across "
       "compression-function replacements",
       explanation="Context independence, state/effect clauses: R-GLOB every object with static storage duration in the library's translation units is const "
